@@ -15,6 +15,7 @@
 From Coq Require Import String List NArith Bool Arith.
 From Nexus Require Import Conc.SkelTypes Conc.Machine Conc.MachineFacts Conc.Shutdown
   Conc.ShutdownWitness Conc.ShutdownProofs Conc.ShutdownLock Conc.ShutdownFlag Conc.ShutdownWg Conc.ShutdownCloser Conc.ShutdownTimers Conc.ShutdownServers Conc.ShutdownOwn Conc.Skeleton Conc.SkelObligationsC06 gen.GenSkeleton.
+From Nexus Require Conc.CallTimers.
 Import ListNotations.
 
 (** ** Tie to the source, re-established on every run *)
@@ -206,3 +207,42 @@ Example repaired_runs_end_well :
   ends_well scr_meta 1 (p1 ByClose) [7; 8; 3; 4; 2; 5; 1; 0; 6] = true /\
   ends_well scr_pub 2 (p2 ByRemoveRealm) [7; 8; 3; 4; 2; 5; 6; 1; 0] = true.
 Proof. exact ShutdownWitness.repaired_runs_end_well. Qed.
+
+(** ** Close takes no time: call-timeout timers
+
+    Model [Conc/CallTimers.v] (timed): the invocations that own a timer, the
+    live timer goroutines with their deadlines, the clock; operations: arm (a
+    CALL with timeout, or a further chunk re-arming it), drop of an invocation
+    (final YIELD, ERROR, CANCEL, a party leaves), time passing, an expired timer
+    firing, a stopped timer goroutine exiting.  For EVERY sequence of
+    operations: every armed timer belongs to an invocation still in the
+    dealer's table — which is what [dealer.close] relies on when it stops the
+    timers of [d.invocations] and then waits for all timer goroutines — so
+    that wait takes no time. *)
+Theorem armed_timers_tracked :
+  forall ops : list CallTimers.op, CallTimers.tracked (CallTimers.run true ops).
+Proof. exact CallTimers.armed_timers_tracked. Qed.
+Print Assumptions armed_timers_tracked.
+
+Theorem close_waits_for_no_timer :
+  forall ops : list CallTimers.op,
+    CallTimers.close_wait (CallTimers.close_cancel (CallTimers.run true ops)) = 0%N.
+Proof. exact CallTimers.close_waits_for_no_timer. Qed.
+Print Assumptions close_waits_for_no_timer.
+
+(** If an invocation may be dropped with its timer running the statement is
+    FALSE in the model: Close waits for the whole client-chosen timeout. *)
+Theorem close_waits_refuted_without_cancel :
+  forall (c : nat) (dur : N),
+    CallTimers.close_wait (CallTimers.close_cancel
+      (CallTimers.run false [CallTimers.Arm c dur; CallTimers.Drop c])) = dur.
+Proof. exact CallTimers.close_waits_refuted_without_cancel. Qed.
+Print Assumptions close_waits_refuted_without_cancel.
+
+(** Per run: the translator's reading of today's dealer.go — every
+    [delete(_.invocations, _)] and every overwrite of [timerCancel] is preceded
+    by a [timerCancel()] call. *)
+Theorem invocation_drops_cancel_timer :
+  Skeleton.invocation_drops_cancel_timer gen_invocation_drops = true.
+Proof. exact invocation_drops_cancel_timer_holds. Qed.
+Print Assumptions invocation_drops_cancel_timer.
